@@ -160,15 +160,18 @@ def checkC13 (steps : List Step) : Option (Nat × String) := Id.run do
           | none => pure ()
         | _, _ => pure ()
       | none => pure ()
-    | ["tick", _, e, _, _] =>
+    | ["tick", _, e, _, _] | ["tickj", _, e, _, _, _, _] =>
+      -- `tickj`: the clock moved on while the tick ran; the block's successor is scheduled when it is scheduled, i.e. at the
+      -- reading taken THEN (the clock after the op): `C13.tick_schedule_moving`
+      let nowSched := if st.op.head? == some "tickj" then s'.clock else s.clock
       match parseDec e with
       | some E =>
         match s.band.lookup E, s'.band.lookup E with
         | some pre0, some post =>
           let pre : Band := { pre0 with r := (specR.lookup E).getD pre0.r }
-          if !holdsC13Tick pre post s.clock then
-            return some (idx, s!"automata_tick ended a block at {s.clock} ms: {pre.r} Hellos heard in this block (the record says r={pre0.r}) begun={pre.begun} Ni {pre.ni} -> {post.ni}, next Hello at {post.helloTs}, load formula allows no sooner than {s.clock + loadInterval post.ni}")
-          if post.blockTs = s.clock + 300 ∧ post.blockTs ≠ pre.blockTs then specR := upd specR E 0
+          if !holdsC13Tick pre post nowSched then
+            return some (idx, s!"automata_tick ended a block at {nowSched} ms: {pre.r} Hellos heard in this block (the record says r={pre0.r}) begun={pre.begun} Ni {pre.ni} -> {post.ni}, next Hello at {post.helloTs}, load formula allows no sooner than {nowSched + loadInterval post.ni}")
+          if post.blockTs = nowSched + 300 ∧ post.blockTs ≠ pre.blockTs then specR := upd specR E 0
         | _, _ => pure ()
       | none => pure ()
     | _ => pure ()
@@ -254,7 +257,10 @@ def checkC14 (steps : List Step) : Option (Nat × String) := Id.run do
               return some (idx, s!"mapping engine (clock moving during the call): state {pre.state} (last input at {pre.lastTs} s, timeout {tmo}) input {inp} entered at {now} s -> state {post.state} last={post.lastTs}; specified: {mapSpec pre.state inp}, stamped {now}")
           | _, _ => pure ()
       | _, _ => pure ()
-    | ["tick", m, _, t, _] =>
+    | ["tick", m, _, t, _] | ["tickj", m, _, t, _, _, _] =>
+      -- `tickj` (the clock moves on right after the tick's first or second reading): the deadline helpers read the clock
+      -- themselves, later — the inactivity clause is judged at the clock after the jump
+      let nowS := (if st.op.head? == some "tickj" then s'.clock else s.clock) / 1000
       match parseDec m with
       | some M =>
         match s.map.lookup M, s'.fsm.lookup M, s'.map.lookup M with
@@ -262,12 +268,12 @@ def checkC14 (steps : List Step) : Option (Nat × String) := Id.run do
           let live := match parseDec t with
             | some T => match s'.tbl.lookup T with | some v => v.live.length | none => 0
             | none => 0
-          if !holdsC14Tick preM.inactTs (s.clock / 1000) postF postM live then
-            return some (idx, s!"tick past the inactivity deadline {preM.inactTs} at {s.clock / 1000} s left state={postF.state} ctc={postM.ctc} charge={postM.chargeTs} inact={postM.inactTs} live sessions={live}")
+          if !holdsC14Tick preM.inactTs nowS postF postM live then
+            return some (idx, s!"tick past the inactivity deadline {preM.inactTs} at {nowS} s left state={postF.state} ctc={postM.ctc} charge={postM.chargeTs} inact={postM.inactTs} live sessions={live}")
           let dl := (inactSpec.lookup M).getD 0
-          if !holdsC14Tick dl (s.clock / 1000) postF postM live then
-            return some (idx, s!"tick at {s.clock / 1000} s: the last frame armed the inactivity deadline {dl} and nothing but the tick may disarm it, yet the tick left state={postF.state} ctc={postM.ctc} inact={postM.inactTs} live sessions={live} (record says deadline {preM.inactTs})")
-          if dl ≠ 0 ∧ s.clock / 1000 ≥ dl then inactSpec := upd inactSpec M 0
+          if !holdsC14Tick dl nowS postF postM live then
+            return some (idx, s!"tick at {nowS} s: the last frame armed the inactivity deadline {dl} and nothing but the tick may disarm it, yet the tick left state={postF.state} ctc={postM.ctc} inact={postM.inactTs} live sessions={live} (record says deadline {preM.inactTs})")
+          if dl ≠ 0 ∧ nowS ≥ dl then inactSpec := upd inactSpec M 0
         | _, _, _ => pure ()
       | none => pure ()
     | ["map", "resetinact", a] =>
@@ -438,7 +444,7 @@ def checkC12 (steps : List Step) : Option (Nat × String) := Id.run do
   | none => pure ()
   -- one responder = one RepeatBand automaton (the tick's second argument) with its own session table and its own
   -- last-transmit time stamp: the rule is stated per responder; several of them may live in one process
-  let enums : List String := (steps.filterMap (fun st => match st.op with | ["tick", _, e, _, _] => some e | _ => none)).eraseDups
+  let enums : List String := (steps.filterMap (fun st => match st.op with | ["tick", _, e, _, _] | ["tickj", _, e, _, _, _, _] => some e | _ => none)).eraseDups
   for en in enums do
     let mut s : Seen := {}
     let mut evs : List TickEv := []
@@ -446,7 +452,7 @@ def checkC12 (steps : List Step) : Option (Nat × String) := Id.run do
     for st in steps do
       let s' := absorb s st.out
       match st.op with
-      | ["tick", _, e, t, port] =>
+      | ["tick", _, e, t, port] | ["tickj", _, e, t, port, _, _] =>
         if e == en then
           if port != "wired" then wiredOnly := false
           let inc := match parseDec t with
